@@ -84,5 +84,10 @@ func clip(s string) string {
 	if len(lines) > 60 {
 		lines = append(lines[:60], fmt.Sprintf("... (%d more lines)", len(lines)-60))
 	}
+	for i, l := range lines {
+		if len(l) > 400 {
+			lines[i] = l[:300] + fmt.Sprintf(" ... (%d more bytes on this line)", len(l)-300)
+		}
+	}
 	return strings.Join(lines, "\n")
 }
